@@ -7,6 +7,8 @@ import GlareModel.Core.Like
 import GlareModel.Core.Str
 import GlareModel.Core.Csv
 import GlareModel.Core.Rle
+import GlareModel.Core.CatalogRun
+import GlareModel.Core.Collection
 
 /-! `gmodel`: line-protocol driver. Reads `case <n> <component> ...` lines on stdin and
 prints `out <n> ...` lines computed by the code-shaped model. -/
@@ -267,10 +269,49 @@ def runRle (args : List String) : String :=
     | _, _ => "bad-case"
   | _ => "bad-case"
 
+/-- `case N collection <segSize> <chunkCap> <ops...>` (see harness/src/collection.rs). -/
+def runCollection (args : List String) : String :=
+  match args with
+  | seg :: cap :: ops =>
+    match seg.toNat?, cap.toNat? with
+    | some seg, some cap =>
+      -- row ids are consecutive over the appends
+      let parsed := ops.foldl (fun (acc : Option (List Collection.Op × Nat)) (o : String) =>
+        match acc with
+        | none => none
+        | some (xs, nextId) =>
+          let tag := (o.take 1).toString
+          let rest := (o.drop 1).toString
+          match tag with
+          | "a" => match rest.splitOn ":" with
+            | [i, k] => match i.toNat?, k.toNat? with
+              | some i, some k => some (xs ++ [.append i ((List.range k).map (· + nextId))], nextId + k)
+              | _, _ => none
+            | _ => none
+          | "f" => rest.toNat?.map fun i => (xs ++ [.flush i], nextId)
+          | "s" => rest.toNat?.map fun j => (xs ++ [.scan j], nextId)
+          | "S" => rest.toNat?.map fun n => (xs ++ [.mkSeq n false], nextId)
+          | "T" => rest.toNat?.map fun n => (xs ++ [.mkSeq n true], nextId)
+          | "P" => rest.toNat?.map fun n => (xs ++ [.mkPar n false], nextId)
+          | "Q" => rest.toNat?.map fun n => (xs ++ [.mkPar n true], nextId)
+          | _ => none) (some ([], 0))
+      match parsed with
+      | none => "bad-case"
+      | some (cops, _) =>
+        let init : Collection.St := { segSize := seg, chunkCap := cap, apps := [[], [], []] }
+        let outs := Collection.run init cops
+        let scanOuts := (cops.zip outs).filterMap fun (o, r) => match o with
+          | .scan _ => some (if r.isEmpty then "-" else ",".intercalate (r.map toString))
+          | _ => none
+        if scanOuts.isEmpty then "none" else "|".intercalate scanOuts
+    | _, _ => "bad-case"
+  | _ => "bad-case"
+
 def step (line : String) : Option String :=
   -- `case N sem <payload>`: the payload keeps its spaces
   match (line.trimAscii.toString.splitOn " ") with
   | "case" :: n :: "sem" :: rest => some s!"out {n} {Sem.runSem (" ".intercalate rest)}"
+  | "case" :: n :: "cat" :: rest => some s!"out {n} {Catalog.runScript (" ".intercalate rest)}"
   | _ =>
   match splitWords line with
   | "case" :: n :: "sortkey" :: cells =>
@@ -281,6 +322,7 @@ def step (line : String) : Option String :=
   | "case" :: n :: "cast" :: args => some s!"out {n} {runCast args}"
   | "case" :: n :: "like" :: args => some s!"out {n} {runLike args}"
   | "case" :: n :: "rle" :: args => some s!"out {n} {runRle args}"
+  | "case" :: n :: "collection" :: args => some s!"out {n} {runCollection args}"
   | "case" :: n :: "csv" :: args => some s!"out {n} {runCsv args}"
   | "case" :: n :: "csvsample" :: args => some s!"out {n} {runCsv args true}"
   | "case" :: n :: "str" :: args => some s!"out {n} {runStr args}"
